@@ -56,6 +56,8 @@ def gen_case(job, seed):
         return defs.gen_shape(idx, n, literal=bool(job.get("shape_literal")))
     if g == "chain":
         return defs.gen_chain(seed)
+    if g == "remloop":
+        return defs.gen_remloop(seed)
     if g == "mcycle":
         return defs.gen_mcycle(seed)
     if g == "cmds":
